@@ -806,7 +806,30 @@ impl SvgElement {
         Ok(el_bbox)
     }
 
+    /// True while a position / size shorthand, relative spec or containment spec still awaits
+    /// resolution, i.e. the element's geometry attributes are not final yet.
+    fn has_pending_geometry(&self) -> bool {
+        self.has_attr("xy")
+            || self.has_attr("cxy")
+            || self.has_attr("xy1")
+            || self.has_attr("xy2")
+            || self.has_attr("xy-loc")
+            || self.has_attr("dxy")
+            || self.has_attr("wh")
+            || self.has_attr("dwh")
+            || self.has_attr("dw")
+            || self.has_attr("dh")
+            || self.has_attr("surround")
+            || self.has_attr("inside")
+    }
+
     fn bbox_raw(&self) -> Result<Option<BoundingBox>> {
+        // An element registered early (so it can be referenced) may not be resolved yet;
+        // anything referencing it must wait and be retried rather than see the defaults
+        // for its still-missing x/y.
+        if self.has_pending_geometry() {
+            return Ok(None);
+        }
         // For SVG 'Basic shapes' (e.g. rect, circle, ellipse, etc) for x/y and similar:
         // "If the attribute is not specified, the effect is as if a value of "0" were specified."
         // The same is not specified for 'size' attributes (width/height/r etc), so we require
